@@ -49,7 +49,7 @@ class Future:
 
 def _run_in_tape_order(futures, tag):
     """Run all pending futures; the completion order is a tape-chosen permutation."""
-    pending = list(range(len(futures)))
+    pending = [i for i, f in enumerate(futures) if not f._done]
     while pending:
         k = nondet.choose_int(len(pending), 'executor completion order') if len(pending) > 1 else 0
         i = pending.pop(k)
